@@ -131,6 +131,8 @@ package goat
 //@     | && result.Header.Source == rpc.Header.Destination && result.Header.Destination == rpc.Header.Source && result.Trailer != nil && result.Reset_ == nil
 //@   ensures[C01.handler_once C20.handler_once C12.handler_once] bound("appErr") ==> ncalls("fnfield:H.google.golang.org/grpc.MethodDesc.Handler") == old(ncalls("fnfield:H.google.golang.org/grpc.MethodDesc.Handler")) + 1
 //@   ensures[C12.no_handler_for_bad_metadata] !bound("appErr") ==> ncalls("fnfield:H.google.golang.org/grpc.MethodDesc.Handler") == old(ncalls("fnfield:H.google.golang.org/grpc.MethodDesc.Handler")) && result.Status != nil && result.Status.Code != 0 && result.Body == nil
+//@   ensures[C03.handler_error_is_the_reported_error C20.handler_error_is_the_reported_error] bound("appErr") && lastret("fnfield:H.google.golang.org/grpc.MethodDesc.Handler").1 != nil ==> appErr == lastret("fnfield:H.google.golang.org/grpc.MethodDesc.Handler").1
+//@   ensures[C03.success_iff_handler_succeeded] bound("appErr") && lastret("fnfield:H.google.golang.org/grpc.MethodDesc.Handler").1 == nil && result.Body != nil ==> result.Status == nil
 //@   ensures[C03.success_has_no_status C06.unary_response C20.end_error_nil_iff_no_status] bound("appErr") && appErr == nil ==> result.Status == nil
 //@   ensures[C03.error_status] bound("appErr") && appErr != nil ==> result.Status != nil && (isStatus(appErr) && stCode(appErr) != 0 ==> result.Status.Code == stCode(appErr) && result.Status.Message == stMsg(appErr) && result.Status.Details == stDetails(appErr))
 //@   ensures[C03.plain_error_text] bound("appErr") && appErr != nil && !isStatus(appErr) ==> result.Status.Code != 0 && result.Status.Message == errText(appErr)
@@ -160,6 +162,8 @@ package goat
 //@     | == old(ncalls("fnfield:H.google.golang.org/grpc.StreamDesc.Handler") + ncalls("fnfield:H.goat.Server.streamInterceptor")) + 1
 //@   ensures[C07.stream_ctx_cancelled_at_exit C10.stream_ctx_cancelled_at_exit] done(cancels(handler.cancel))
 //@   atcall[C03.trailer_carries_handler_result C06.trailer_carries_handler_result C20.end_error_is_the_status_sent] server.(*serverStream).SendTrailer : arg1 == appErr
+//@   atcall[C03.trailer_carries_what_the_handler_chain_returned C20.trailer_carries_what_the_handler_chain_returned] server.(*serverStream).SendTrailer :
+//@     | arg1 == ite(h.srv.streamInterceptor != nil, lastret("fnfield:H.goat.Server.streamInterceptor"), lastret("fnfield:H.google.golang.org/grpc.StreamDesc.Handler"))
 //@   atcall[C12.stream_signals_before_it_waits_for_the_registry_lock C11.stream_signals_before_it_waits_for_the_registry_lock C14.stream_signals_before_it_waits_for_the_registry_lock C10.stream_signals_before_it_waits_for_the_registry_lock C02.stream_signals_before_it_waits_for_the_registry_lock C05.stream_signals_before_it_waits_for_the_registry_lock] goat.(*handler).unregisterStream : done(cancels(handler.cancel))
 
 // reader closure of a server stream: only this stream's queue, or the stream context's error
@@ -411,6 +415,11 @@ package goat
 //@   ensures[C19.http_new_connection_starts_active] result.1 ==> ncalls("(*sync/atomic.Int64).Store") == old(ncalls("(*sync/atomic.Int64).Store")) + 1
 //@   ensures[C19.http_one_conn_per_source] result.0 != nil && result.0.readCh != nil && id in goh.conns.value && goh.conns.value[id] == result.0 && result.1 == !atlock(id in goh.conns.value)
 
+// typestate of the connection tables: an entry leaves its table only after its cancel signal has fired
+// (whoever is parked on the connection is released), whichever function removes it
+//@ ondelete[C19.http_removed_connection_is_signalled] goat.GoatOverHttp.conns.value : entry != nil ==> closed(entry.closed)
+//@ ondelete[C18.cancelled_connection_is_signalled] goat.Demux.conns.value : entry != nil ==> closed(entry.done)
+//@ ondelete[C14.removed_stream_is_cancelled C10.removed_stream_is_cancelled C07.removed_stream_is_cancelled] goat.handler.streams : done(cancels(entry.cancel))
 //@ func goat.(*GoatOverHttp).unregisterLocked
 //@   inline
 //@   holds goat.GoatOverHttp.conns.Mutex
@@ -609,6 +618,8 @@ package goat
 //@   nopanic[C12.nopanic C10.nopanic]
 //@   captures h != nil && objinv(h)
 //@   atcall[C10.writer_stops_with_connection C06.writer_forwards_unchanged] (types.RpcReadWriter).Write : arg1 == h.ctx && arg2 == rpc
+//@   ensures[C10.writer_leaves_only_a_cancelled_connection] done(h.ctx)
+//@   loop 0 invariant[C10.write_failure_ends_the_connection] bound("err") && err != nil ==> done(h.ctx)
 
 // unary worker of a connection: every blocking step has a context escape, and handlers run under the
 // connection-scoped child of the caller's context that serve cancels on return
